@@ -394,3 +394,94 @@ Proof.
   pose proof (bin_fold_all arr ss [] 0%nat Hs) as H. cbn [length app Nat.add skipn] in H.
   rewrite H by lia. reflexivity.
 Qed.
+
+(* ------------------------------------------------------------------ function evaluation + binning *)
+Lemma chop_flat_map {A B} (g : A -> list B) l :
+  chop (map (fun x => length (g x)) l) (flat_map g l) = map g l.
+Proof.
+  induction l as [|a l IH]; cbn [map flat_map chop]; auto.
+  rewrite firstn_app, Nat.sub_diag, firstn_all, skipn_app, Nat.sub_diag, skipn_all. cbn [firstn skipn app].
+  rewrite app_nil_r, IH. reflexivity.
+Qed.
+Lemma list_sum_flat_map_length {A B} (g : A -> list B) l : length (flat_map g l) = list_sum (map (fun x => length (g x)) l).
+Proof. induction l; cbn; auto. rewrite app_length, IHl. reflexivity. Qed.
+Lemma map_flat_map {A B C} (f : B -> C) (g : A -> list B) l : map f (flat_map g l) = flat_map (fun x => map f (g x)) l.
+Proof. induction l; cbn; auto. rewrite map_app, IHl. reflexivity. Qed.
+
+Lemma map_snd_combine {A B} (l : list A) : forall (r : list B), length l = length r -> map snd (combine l r) = r.
+Proof. induction l as [|a l IH]; intros [|b r] H; cbn in *; try discriminate; auto. f_equal. apply IH. lia. Qed.
+Lemma spec_centres_length m (ps og : RR) : length (@spec_centres ROps m ps og) = length (unmasked m).
+Proof. unfold spec_centres. now rewrite map_length. Qed.
+Lemma block_lengths (f : RR -> R) m (ps og : RR) ss : length ss = length (unmasked m) ->
+  map (fun cs : RR * nat => length (map f (@block ROps ps (fst cs) (snd cs)))) (combine (@spec_centres ROps m ps og) ss) = sqs ss.
+Proof.
+  intros Hl. unfold sqs.
+  rewrite <- (map_snd_combine (@spec_centres ROps m ps og) ss) at 2 by (rewrite spec_centres_length; lia).
+  rewrite map_map. apply map_ext. intros cs. now rewrite map_length, block_length.
+Qed.
+
+Theorem via_func_is_block_means (f : RR -> R) m (ps og : RR) ss :
+  shape_okP m ss -> ps_okR ps ->
+  @array_via_func ROps f m ps og ss = @spec_via_func ROps f m ps og ss.
+Proof.
+  intros Hsh Hps. unfold array_via_func. rewrite (sub_grid_formula m ps og ss Hsh Hps).
+  destruct Hsh as [Hl Hs].
+  assert (Hq : map (fun cs : RR * nat => length (map f (@block ROps ps (fst cs) (snd cs)))) (combine (@spec_centres ROps m ps og) ss) = sqs ss).
+  { apply block_lengths. exact Hl. }
+  rewrite bin_is_mean_of_own_subvalues.
+  - unfold spec_binned, spec_via_func, spec_grid. fold (sqs ss). rewrite map_flat_map, <- Hq.
+    rewrite (chop_flat_map (fun cs : RR * nat => map f (@block ROps ps (fst cs) (snd cs)))), map_map. reflexivity.
+  - split; assumption.
+  - unfold spec_grid. rewrite map_flat_map.
+    rewrite (list_sum_flat_map_length (fun cs : RR * nat => map f (@block ROps ps (fst cs) (snd cs)))), Hq. reflexivity.
+Qed.
+
+(* sums over a block *)
+Lemma sumR_seq_INR s : sumR (map INR (seq 0 s)) = INR s * (INR s - 1) / 2.
+Proof.
+  induction s as [|s IH]; [cbn; lra|].
+  rewrite seq_S, map_app, sumR_app, IH. cbn [map sumR Nat.add]. rewrite S_INR. lra.
+Qed.
+Lemma sumR_const {A} (c : R) (l : list A) : sumR (map (fun _ => c) l) = INR (length l) * c.
+Proof. induction l as [|a l IH]; [cbn; lra|]. cbn [map sumR length]. rewrite IH, S_INR. lra. Qed.
+Lemma sumR_flat_map {A} (g : A -> list R) l : sumR (flat_map g l) = sumR (map (fun a => sumR (g a)) l).
+Proof. induction l; cbn; auto. rewrite sumR_app, IHl. reflexivity. Qed.
+
+Definition affine (f : RR -> R) : Prop := exists k ay ax, forall p, f p = k + ay * fst p + ax * snd p.
+
+(* the mean of an affine function over the s x s sub-centres of a pixel is its value at the pixel centre *)
+Lemma mean_block_affine (f : RR -> R) (ps c : RR) s : affine f -> (1 <= s)%nat ->
+  @mean ROps (map f (@block ROps ps c s)) = f c.
+Proof.
+  intros [k [ay [ax Hf]]] Hs. pose proof (INR_pos_of_le s Hs) as Hs0.
+  rewrite mean_R, map_length, block_length, mult_INR. unfold block. rewrite map_flat_map, sumR_flat_map.
+  rewrite (sumR_map_ext _ (fun a => INR s * (k + ay * (fst c + fst ps / 2 - (INR a + / 2) * fst ps / INR s) + ax * snd c))).
+  - rewrite sumR_map_scal.
+    rewrite (sumR_map_ext _ (fun a => (k + ay * (fst c + fst ps / 2 - fst ps / (2 * INR s)) + ax * snd c) + (- ay * fst ps / INR s) * INR a))
+      by (intros; field; auto).
+    rewrite sumR_map_add, sumR_const, seq_length, sumR_map_scal, sumR_seq_INR, Hf. change (T ROps) with R. field. auto.
+  - intros a _. rewrite map_map.
+    rewrite (sumR_map_ext _ (fun b => (k + ay * (fst c + fst ps / 2 - (INR a + / 2) * fst ps / INR s) + ax * (snd c - snd ps / 2 + snd ps / (2 * INR s)))
+                                      + (ax * snd ps / INR s) * INR b)).
+    + rewrite sumR_map_add, sumR_const, seq_length, sumR_map_scal, sumR_seq_INR. field. auto.
+    + intros b _. rewrite Hf. unfold sub_centre, half, one, two. rewrite !ofNat_R. cbn [fst snd add sub mul div opp ofZ ROps T]. field. auto.
+Qed.
+
+Theorem bin_reproduces_affine (f : RR -> R) m (ps og : RR) ss :
+  affine f -> shape_okP m ss -> ps_okR ps ->
+  @array_via_func ROps f m ps og ss = map f (@spec_centres ROps m ps og).
+Proof.
+  intros Hf Hsh Hps. rewrite via_func_is_block_means by assumption. destruct Hsh as [Hl Hs].
+  unfold spec_via_func.
+  assert (Hc : length (@spec_centres ROps m ps og) = length ss) by (unfold spec_centres; rewrite map_length; lia).
+  revert Hc Hs. generalize (@spec_centres ROps m ps og). clear Hl. induction ss as [|s ss IH]; intros [|c l] Hc Hs; cbn in Hc; try discriminate; auto.
+  inversion Hs; subst. cbn [combine map fst snd]. rewrite mean_block_affine by assumption. f_equal. apply IH; [now injection Hc|assumption].
+Qed.
+Corollary bin_reproduces_constants (k : R) m (ps og : RR) ss :
+  shape_okP m ss -> ps_okR ps ->
+  @array_via_func ROps (fun _ => k) m ps og ss = repeat k (length (unmasked m)).
+Proof.
+  intros Hsh Hps. rewrite bin_reproduces_affine; auto.
+  - unfold spec_centres. rewrite map_map. generalize (unmasked m). induction l; cbn; congruence.
+  - exists k, 0, 0. intros. lra.
+Qed.
